@@ -350,7 +350,9 @@ theorem inv_step {batches : List (List Nat)} {s : St} (h : Inv batches s) (e : E
       · exact inv_setpc h _ (by simp [hpc]) (by simp)
       · split
         · exact inv_setpc h _ (by simp [hpc]) (by simp)
-        · exact inv_setpc h _ (by simp [hpc]) (by simp)
+        · split
+          · exact inv_setpc h _ (by simp [hpc]) (by simp)
+          · exact inv_setpc h _ (by simp [hpc]) (by simp)
     · exact h
 
 theorem run_cons (s : St) (e : Ev) (es : List Ev) : run s (e :: es) = run (step s e) es := rfl
@@ -446,6 +448,20 @@ theorem done_undelivered (batches : List (List Nat)) (es : List Ev) (h : (run (i
   simpa [W, List.flatMap_eq_nil_iff] using hW
 
 /-! ## deaths and failure -/
+/-- the liveness check changes at most the parent's program counter -/
+theorem pCheck_cases (s : St) :
+    step s .pCheck = s ∨ step s .pCheck = { s with pc := .atGet } ∨ step s .pCheck = { s with pc := .failed } := by
+  simp only [step]
+  split
+  · split
+    · exact Or.inr (Or.inr rfl)
+    · split
+      · exact Or.inr (Or.inl rfl)
+      · split
+        · exact Or.inr (Or.inr rfl)
+        · exact Or.inr (Or.inl rfl)
+  · exact Or.inl rfl
+
 theorem death_persistent (s : St) (i : Nat) (w : Worker) (hi : s.ws[i]? = some w) (c : Int) (hc : w.st = .exited c) (e : Ev) :
     (step s e).ws[i]? = some w := by
   have key : ∀ (j : Nat) (w₀ w' : Worker), s.ws[j]? = some w₀ → w₀.st = .running → (updW s.ws j w')[i]? = some w := by
@@ -494,12 +510,7 @@ theorem death_persistent (s : St) (i : Nat) (w : Worker) (hi : s.ws[i]? = some w
     simp only [step]
     split <;> exact hi
   | pCheck =>
-    simp only [step]
-    split
-    · split
-      · exact hi
-      · split <;> exact hi
-    · exact hi
+    rcases pCheck_cases s with h | h | h <;> rw [h] <;> exact hi
 
 theorem step_ws_parent (s : St) (e : Ev) (he : e = .pGet ∨ e = .pTimeout ∨ e = .pCheck) : (step s e).ws = s.ws := by
   rcases he with rfl | rfl | rfl
@@ -510,12 +521,7 @@ theorem step_ws_parent (s : St) (e : Ev) (he : e = .pGet ∨ e = .pTimeout ∨ e
     · rfl
   · simp only [step]
     split <;> rfl
-  · simp only [step]
-    split
-    · split
-      · rfl
-      · split <;> rfl
-    · rfl
+  · rcases pCheck_cases s with h | h | h <;> rw [h]
 
 def wMeasure (w : Worker) : Nat :=
   match w.st with | .running => 2 * w.todo.length + w.buf.length + 1 | .exited _ => 0
@@ -579,9 +585,11 @@ theorem receive_chan (s : St) (m : Msg) : (receive s m).chan = s.chan := by
 theorem receive_pc (s : St) (m : Msg) : (receive s m).pc = .done ∨ (receive s m).pc = .atGet := by
   simp only [receive]; split <;> split <;> simp
 
-/-- `failed` is entered only by the liveness check, with nobody running and not all exit codes zero -/
+/-- `failed` is entered only by the liveness check: with a failed worker, or with nobody running and not all exit codes
+    zero -/
 theorem failed_origin (s : St) (e : Ev) (h : (step s e).pc = .failed) :
-    s.pc = .failed ∨ (anyRunning s = false ∧ allExitedZero s = false ∧ (step s e).ws = s.ws) := by
+    s.pc = .failed ∨
+      ((anyFailed s = true ∨ (anyRunning s = false ∧ allExitedZero s = false)) ∧ (step s e).ws = s.ws) := by
   cases e with
   | wPut i => left; simp only [step] at h; split at h <;> exact h
   | wFlush i => left; simp only [step] at h; split at h <;> exact h
@@ -602,17 +610,19 @@ theorem failed_origin (s : St) (e : Ev) (h : (step s e).pc = .failed) :
     · cases h
     · exact h
   | pCheck =>
-    simp only [step] at h ⊢
+    have hws := step_ws_parent s .pCheck (Or.inr (Or.inr rfl))
+    simp only [step] at h
     split at h
     · split at h
-      · cases h
-      · rename_i hpc hrun
-        split at h
-        · rename_i hz
-          right
-          refine ⟨by simpa using hrun, by simpa using hz, ?_⟩
-          rw [if_neg hrun, if_pos hz]
+      · rename_i hpc hfail
+        exact Or.inr ⟨Or.inl hfail, hws⟩
+      · split at h
         · cases h
+        · rename_i hpc hfail hrun
+          split at h
+          · rename_i hz
+            exact Or.inr ⟨Or.inr ⟨by simpa using hrun, by simpa using hz⟩, hws⟩
+          · cases h
     · left; exact h
 
 theorem check_failed {s : St} (hr : anyRunning s = false) (hz : allExitedZero s = false) :
@@ -629,16 +639,32 @@ theorem check_failed {s : St} (hr : anyRunning s = false) (hz : allExitedZero s 
     subst h0
     exact hne hst
 
+theorem anyFailed_witness {s : St} (hf : anyFailed s = true) : ∃ w ∈ s.ws, ∃ c, w.st = .exited c ∧ c ≠ 0 := by
+  simp only [anyFailed, List.any_eq_true] at hf
+  obtain ⟨w, hw, hc⟩ := hf
+  refine ⟨w, hw, ?_⟩
+  cases hst : w.st with
+  | running => simp [hst] at hc
+  | exited c =>
+    refine ⟨c, rfl, ?_⟩
+    simpa [hst] using hc
+
+theorem check_failed' {s : St} (h : anyFailed s = true ∨ (anyRunning s = false ∧ allExitedZero s = false)) :
+    ∃ w ∈ s.ws, ∃ c, w.st = .exited c ∧ c ≠ 0 := by
+  rcases h with hf | ⟨hr, hz⟩
+  · exact anyFailed_witness hf
+  · exact check_failed hr hz
+
 theorem failed_step {s : St} (e : Ev)
     (h : s.pc = .failed → ∃ w ∈ s.ws, ∃ c, w.st = .exited c ∧ c ≠ 0) :
     (step s e).pc = .failed → ∃ w ∈ (step s e).ws, ∃ c, w.st = .exited c ∧ c ≠ 0 := by
   intro hf
-  rcases failed_origin s e hf with hpc | ⟨hr, hz, hws⟩
+  rcases failed_origin s e hf with hpc | ⟨hch, hws⟩
   · obtain ⟨w, hw, c, hc, hc0⟩ := h hpc
     obtain ⟨i, hi⟩ := List.mem_iff_getElem?.1 hw
     exact ⟨w, List.mem_iff_getElem?.2 ⟨i, death_persistent s i w hi c hc e⟩, c, hc, hc0⟩
   · rw [hws]
-    exact check_failed hr hz
+    exact check_failed' hch
 
 theorem failed_has_death (batches : List (List Nat)) (es : List Ev) (h : (run (init batches) es).pc = .failed) :
     ∃ w ∈ (run (init batches) es).ws, ∃ c, w.st = .exited c ∧ c ≠ 0 := by
@@ -699,9 +725,9 @@ theorem no_spurious_failure (batches : List (List Nat)) (es : List Ev) (hd : es.
       simp only [List.any_cons, Bool.or_eq_false_iff] at hd
       refine ih (step s e) hd.2 ?_ (nodeath_step e hd.1 hw)
       intro hf
-      rcases failed_origin s e hf with hpc | ⟨hr, hz, _⟩
+      rcases failed_origin s e hf with hpc | ⟨hch, _⟩
       · exact hs hpc
-      · obtain ⟨w, hw', c, hc, hc0⟩ := check_failed hr hz
+      · obtain ⟨w, hw', c, hc, hc0⟩ := check_failed' hch
         rcases hw w hw' with h1 | h1 <;> rw [hc] at h1 <;> cases h1
         exact hc0 rfl
   refine gen es (init batches) hd ?_ ?_
@@ -767,13 +793,23 @@ theorem drain_gets (n : Nat) : ∀ (s : St), s.chan.length = n → s.pc = .atGet
         exact ⟨h1.trans hws, h2⟩
 
 theorem final_check {s : St} (hpc : s.pc = .atGet) (hc : s.chan = []) (hr : anyRunning s = false) :
-    run s [.pTimeout, .pCheck] = { s with pc := if allExitedZero s then .atGet else .failed } := by
+    run s [.pTimeout, .pCheck] =
+      { s with pc := if anyFailed s then .failed else if allExitedZero s then .atGet else .failed } := by
   have h1 : step s .pTimeout = { s with pc := .afterEmpty } := by simp only [step, hpc, hc]
   rw [run_cons, h1, run_cons, run_nil]
   have hr' : anyRunning { s with pc := PC.afterEmpty } = false := hr
   have hz' : allExitedZero { s with pc := PC.afterEmpty } = allExitedZero s := rfl
-  simp only [step, hr', hz']
-  cases allExitedZero s <;> simp
+  have hf' : anyFailed { s with pc := PC.afterEmpty } = anyFailed s := rfl
+  simp only [step, hr', hz', hf']
+  cases anyFailed s <;> cases allExitedZero s <;> simp
+
+/-- with a failed worker the timeout and the check end in `failed`, whatever the other workers are doing -/
+theorem final_check_failed {s : St} (hpc : s.pc = .atGet) (hc : s.chan = []) (hf : anyFailed s = true) :
+    run s [.pTimeout, .pCheck] = { s with pc := .failed } := by
+  have h1 : step s .pTimeout = { s with pc := .afterEmpty } := by simp only [step, hpc, hc]
+  rw [run_cons, h1, run_cons, run_nil]
+  have hf' : anyFailed { s with pc := PC.afterEmpty } = true := hf
+  simp only [step, hf', if_true]
 
 theorem inv_quiet_done {batches : List (List Nat)} {s : St} (h : Inv batches s) (hz : allExitedZero s = true)
     (hc : s.chan = []) : s.pc = .done := by
@@ -797,6 +833,8 @@ theorem anyRunning_congr {s s' : St} (h : s'.ws = s.ws) : anyRunning s' = anyRun
   simp [anyRunning, h]
 theorem allExitedZero_congr {s s' : St} (h : s'.ws = s.ws) : allExitedZero s' = allExitedZero s := by
   simp [allExitedZero, h]
+theorem anyFailed_congr {s s' : St} (h : s'.ws = s.ws) : anyFailed s' = anyFailed s := by
+  simp [anyFailed, h]
 
 /-- corrected termination statement: from a reachable quiescent state in which the parent is not between `Empty` and the
     liveness check -/
@@ -818,12 +856,15 @@ theorem drain_terminates {batches : List (List Nat)} {s : St} (h : Inv batches s
       rw [run_cons, pTimeout_stutter h1, run_cons, pCheck_stutter h2, run_nil]
       exact Or.inl hd
     · rw [final_check hg hch ((anyRunning_congr hws).trans hq)]
-      cases hz : allExitedZero s2 with
-      | false => right; simp
-      | true =>
-        have := inv_quiet_done hinv hz hch
-        rw [hg] at this
-        cases this
+      cases hf : anyFailed s2 with
+      | true => right; simp
+      | false =>
+        cases hz : allExitedZero s2 with
+        | false => right; simp
+        | true =>
+          have := inv_quiet_done hinv hz hch
+          rw [hg] at this
+          cases this
 
 /-- corrected termination statement, for every reachable quiescent state: one more liveness check first -/
 theorem drain_terminates' {batches : List (List Nat)} {s : St} (h : Inv batches s) (hq : anyRunning s = false) :
@@ -831,18 +872,15 @@ theorem drain_terminates' {batches : List (List Nat)} {s : St} (h : Inv batches 
   rw [run_cons]
   have hws := step_ws_parent s .pCheck (Or.inr (Or.inr rfl))
   have hch : (step s .pCheck).chan = s.chan := by
-    simp only [step]
-    split
-    · split
-      · rfl
-      · split <;> rfl
-    · rfl
+    rcases pCheck_cases s with h | h | h <;> rw [h]
   have hpc : (step s .pCheck).pc ≠ .afterEmpty := by
     simp only [step]
     split
     · split
       · simp
-      · split <;> simp
+      · split
+        · simp
+        · split <;> simp
     · rename_i hne
       exact fun h => hne h
   have := drain_terminates (inv_step h .pCheck) ((anyRunning_congr hws).trans hq) hpc
@@ -872,7 +910,7 @@ theorem drain_death_fails {batches : List (List Nat)} {s : St} (h : Inv batches 
     have h1 : s.pc ≠ .atGet := by simp [hp]
     rw [drain, run_append, gets_stutter h1, run_cons, pTimeout_stutter h1, run_cons, run_nil]
     simp only [step, hp, hq, hz]
-    simp
+    cases anyFailed s <;> simp
   | atGet =>
     obtain ⟨hws, hcase⟩ := drain_gets s.chan.length s rfl hp
     have hinv := inv_run h (List.replicate s.chan.length .pGet)
@@ -881,6 +919,33 @@ theorem drain_death_fails {batches : List (List Nat)} {s : St} (h : Inv batches 
     rcases hcase with hd | ⟨hg, hch⟩
     · exact absurd (inv_done_undelivered hinv hd w (hws ▸ hwm)) hund
     · rw [final_check hg hch ((anyRunning_congr hws).trans hq), allExitedZero_congr hws, hz]
-      simp
+      cases anyFailed s2 <;> simp
+
+/-- once some worker has failed, the parent alone terminates (a possibly pending check, the reads, one timeout, one check),
+    whatever the state of the other workers; no invariant is needed -/
+theorem drain_failed_terminates {s : St} (hf : anyFailed s = true) :
+    (run s (.pCheck :: drain s.chan.length)).pc = .done ∨ (run s (.pCheck :: drain s.chan.length)).pc = .failed := by
+  rw [run_cons]
+  cases hp : s.pc with
+  | afterEmpty =>
+    have h1 : step s .pCheck = { s with pc := .failed } := by simp only [step, hp, hf, if_true]
+    rw [h1, drain_stuck (Or.inr rfl)]
+    exact Or.inr rfl
+  | done =>
+    rw [pCheck_stutter (by simp [hp]), drain_stuck (Or.inl hp)]; exact Or.inl hp
+  | failed =>
+    rw [pCheck_stutter (by simp [hp]), drain_stuck (Or.inr hp)]; exact Or.inr hp
+  | atGet =>
+    rw [pCheck_stutter (by simp [hp])]
+    obtain ⟨hws, hcase⟩ := drain_gets s.chan.length s rfl hp
+    rw [drain, run_append]
+    generalize run s (List.replicate s.chan.length .pGet) = s2 at hws hcase
+    rcases hcase with hd | ⟨hg, hch⟩
+    · have h1 : s2.pc ≠ .atGet := by simp [hd]
+      have h2 : s2.pc ≠ .afterEmpty := by simp [hd]
+      rw [run_cons, pTimeout_stutter h1, run_cons, pCheck_stutter h2, run_nil]
+      exact Or.inl hd
+    · rw [final_check_failed hg hch ((anyFailed_congr hws).trans hf)]
+      exact Or.inr rfl
 
 end Gaftools.Proofs.Realign
